@@ -117,6 +117,10 @@ enum Case {
     Product { li1: usize, li2: usize },
     /// two float elements anywhere in the argument list get (different) lattice values, the rest ordinary
     TwoLanes { k: usize },
+    /// structured relations between arguments: the first float vector / quaternion argument is axis-aligned (one lane
+    /// +-m, the others +-0), every other argument of the same type stands in a relation to it (equal, opposite,
+    /// parallel, anti-parallel, orthogonal axis, ordinary), scalar arguments take a few plain values
+    Related { base: usize, rel: usize, sc: usize },
     /// every float element drawn independently from the swarm mix
     Sample { k: usize },
 }
@@ -146,6 +150,16 @@ fn cases_of(op: &OpDesc, samples: usize) -> Vec<Case> {
             }
         }
     }
+    if let Some((t, _)) = related_base(op) {
+        let nb = t.n() * 2 * 4 * 2;
+        for base in 0..nb {
+            for rel in 0..6 {
+                for sc in 0..5 {
+                    v.push(Case::Related { base, rel, sc });
+                }
+            }
+        }
+    }
     let ns = if op.args.is_empty() { 1 } else { samples };
     for k in 0..ns {
         v.push(Case::Sample { k });
@@ -158,9 +172,66 @@ fn cases_of(op: &OpDesc, samples: usize) -> Vec<Case> {
     v
 }
 
+/// the first float vector / quaternion argument, if at least one more float-bearing argument exists
+fn related_base(op: &OpDesc) -> Option<(TyId, usize)> {
+    let fcount = op.args.iter().filter(|t| t.is_float_bearing()).count();
+    if fcount < 2 {
+        return None;
+    }
+    op.args.iter().enumerate().find_map(|(i, t)| match t {
+        Ty::G(id) if matches!(id.elem(), Elem::F32 | Elem::F64) && id.n() <= 4 && !id.name().contains("Mat") => Some((*id, i)),
+        _ => None,
+    })
+}
+
+fn fbits(e: Elem, x: f64) -> u64 {
+    if e == Elem::F32 { (x as f32).to_bits() as u64 } else { x.to_bits() }
+}
+
+fn related_args(op: &OpDesc, base: usize, rel: usize, sc: usize, rng: &mut Rng) -> Vec<Val> {
+    let (t, bi) = related_base(op).unwrap();
+    let n = t.n();
+    let e = t.elem();
+    let axis = base % n;
+    let neg = (base / n) % 2 == 1;
+    let mag = [1.0, 2.5, 1e-20, 1e20][(base / (2 * n)) % 4];
+    let zneg = (base / (8 * n)) % 2 == 1;
+    let zero = if zneg { -0.0 } else { 0.0 };
+    let lanes: Vec<f64> = (0..n).map(|l| if l == axis { if neg { -mag } else { mag } } else { zero }).collect();
+    let mk = |ls: &[f64]| t.from_bits(&ls.iter().map(|x| fbits(e, *x)).collect::<Vec<_>>());
+    let scalars = [0.0, 0.5, 1.0, -1.0];
+    (0..op.args.len())
+        .map(|i| {
+            if i == bi {
+                return mk(&lanes);
+            }
+            match &op.args[i] {
+                Ty::G(id) if *id == t => match rel {
+                    0 => mk(&lanes),
+                    1 => mk(&lanes.iter().map(|x| -x).collect::<Vec<_>>()),
+                    2 => mk(&lanes.iter().map(|x| 2.0 * x).collect::<Vec<_>>()),
+                    3 => mk(&lanes.iter().map(|x| -0.5 * x).collect::<Vec<_>>()),
+                    4 => {
+                        let mut o = vec![zero; n];
+                        o[(axis + 1) % n] = mag;
+                        mk(&o)
+                    }
+                    _ => gen_arg(op, i, rng, Cls::Ordinary),
+                },
+                Ty::S(Elem::F32) if sc < 4 => Val::F32(scalars[sc] as f32),
+                Ty::S(Elem::F64) if sc < 4 => Val::F64(scalars[sc]),
+                _ => gen_arg(op, i, rng, Cls::Ordinary),
+            }
+        })
+        .collect()
+}
+
 fn make_args(op: &OpDesc, oi: usize, case: &Case, ci: usize, seed: u64) -> Vec<Val> {
     let mut rng = Rng::new(seed, "c18p-args", (oi as u64) << 24 | ci as u64);
     let fpos: Vec<usize> = (0..op.args.len()).filter(|i| op.args[*i].is_float_bearing()).collect();
+    if let Case::Related { base, rel, sc } = case {
+        return related_args(op, *base, *rel, *sc, &mut rng);
+    }
     if let Case::TwoLanes { .. } = case {
         let mut args: Vec<Val> = (0..op.args.len()).map(|i| gen_arg(op, i, &mut rng, Cls::Ordinary)).collect();
         for _ in 0..2 {
@@ -289,7 +360,7 @@ fn sweep_op(oi: usize, seed: u64, samples: usize) -> OpResult {
         if seen.insert(d.finish()) {
             res.distinct += 1;
         }
-        if !matches!(case, Case::Sample { .. } | Case::TwoLanes { .. }) {
+        if !matches!(case, Case::Sample { .. } | Case::TwoLanes { .. } | Case::Related { .. }) {
             res.lattice_hits += 1;
         }
         res.evals += 1;
@@ -429,4 +500,40 @@ pub fn replay(j: &J) -> Option<(String, String)> {
         }
         Ok(_) => None,
     }
+}
+
+/// One or two plain calls of every op of a shard: the "every public function executes at least once under the
+/// machine-level monitor" pass (Miri reports uninitialised / out-of-bounds / misaligned accesses even when the
+/// result is right and nothing crashes natively). The op is announced first, so a monitor abort names it.
+pub fn run_once(seed: u64, shard: usize, of: usize, only: Option<&str>) -> Summary {
+    let mut sum = Summary::default();
+    sum.faults_fired.insert("HOSTILE_VALUE".into(), 0);
+    sum.faults_effective.insert("HOSTILE_VALUE".into(), 0);
+    for (oi, op) in OPS.iter().enumerate() {
+        if let Some(n) = only {
+            if op.name != n {
+                continue;
+            }
+        } else if oi % of.max(1) != shard {
+            continue;
+        }
+        if op.fname == "fmt_sink" || op.fname == "fmt_spec" {
+            continue; // formatting machinery dominates interpreter time and is covered natively
+        }
+        crate::arena::announce(&format!("{{\"kind\":\"op\",\"fn\":{}}}", serde_json::to_string(op.name).unwrap()));
+        for (k, cls) in [Cls::Ordinary, Cls::Mix].into_iter().enumerate() {
+            let mut rng = Rng::new(seed, "c18p-once", (oi as u64) << 4 | k as u64);
+            let args: Vec<Val> = (0..op.args.len()).map(|i| gen_arg(op, i, &mut rng, cls)).collect();
+            sum.evaluations += 1;
+            if let Err(p) = call(op, &args) {
+                let class = format!("panic:{}", op.name);
+                let detail = format!("panicked: {} at {} with {}", p.msg, p.loc, render_args(op, &args));
+                sum.violations.push(Violation { class: class.clone(), detail: detail.clone(), replay: replay_json(op, &args, seed, &class, &detail) });
+            }
+        }
+        sum.distinct.insert(op.name.to_string());
+    }
+    sum.extra.insert("ops_in_shard".into(), json!(sum.distinct.len()));
+    sum.distinct.insert("shard".into());
+    sum
 }
